@@ -61,6 +61,8 @@ type srvCfg struct {
 	Name           string
 	DisablePreExec bool
 	Seed           []string // event prefix (real handlers) that produces the initial state
+	wantPool       int
+	wantPend       int
 }
 
 type harness struct {
@@ -719,13 +721,18 @@ func serverPart(r *ev.Run) (states, transitions int) {
 	}
 	poolA := []string{"sub:A:http", "deq:0:rcv", "rsp:0:A:sl:ok", "rsp:0:A:sf:ok1"}
 	poolAB := append(append([]string{}, poolA...), "sub:B:net", "deq:0:rcv", "rsp:0:B:sf:ok1", "rsp:0:B:sl:ok")
+	inflight := append(append([]string{}, poolA...), "sub:B:net", "sub:C:http")
 	var cfgs []srvCfg
 	for _, dis := range []bool{false, true} {
 		for _, sd := range []struct {
-			n string
-			p []string
-		}{{"empty", nil}, {"A@1", poolA}, {"A@1,B@1", poolAB}} {
-			cfgs = append(cfgs, srvCfg{Name: fmt.Sprintf("preexec=%v/%s", !dis, sd.n), DisablePreExec: dis, Seed: sd.p})
+			n          string
+			p          []string
+			pool, pend int
+		}{{"empty", nil, 0, 0}, {"A@1", poolA, 1, 0}, {"A@1,B@1", poolAB, 2, 0}, {"A@1+B,C-admitted", inflight, 1, 2}} {
+			if dis && sd.pend > 0 {
+				continue
+			}
+			cfgs = append(cfgs, srvCfg{Name: fmt.Sprintf("preexec=%v/%s", !dis, sd.n), DisablePreExec: dis, Seed: sd.p, wantPool: sd.pool, wantPend: sd.pend})
 		}
 	}
 	r.Require("admitted", "rejected_full", "rejected_dup_pooled", "rejected_dup_pending", "pooled", "requeued_old", "cleaned",
@@ -785,7 +792,7 @@ func serverPart(r *ev.Run) (states, transitions int) {
 			transitions++
 			v = a
 		}
-		if len(v.Pool) != len(cfgs[ci].Seed)/4 || len(v.Pending) != 0 || h.saveModel() != (rmodel{}) {
+		if len(v.Pool) != cfgs[ci].wantPool || len(v.Pending) != cfgs[ci].wantPend || h.saveModel() != (rmodel{}) {
 			r.HarnessError("C37(a): seed of %s gave pool %v pending %v", cfgs[ci].Name, sortedKeys(v.Pool), sortedKeys(v.Pending))
 		}
 		inits = append(inits, sstate{Cfg: uint8(ci), Key: hashOf(h.stateKey(v)), Evs: enabled(v)})
